@@ -26,7 +26,7 @@ struct Builder {
 	Plan plan;
 	struct Cm { bool alive = false; uint32_t flags = 0; int key = -1; int id = 0, epoch = 0; } C[8];
 	struct Dm { bool alive = false; bool complete = false; int key = -1; uint32_t cflags = 0; int id = 0; uint32_t flags = 0; } D[4];
-	struct Vm { bool alive = false; uint32_t flags = 0; bool v2 = false; int c = -1, cid = 0, cepoch = 0, d = -1, did = 0; bool batch = false; int task = 0; } V[16];
+	struct Vm { bool alive = false; uint32_t flags = 0; bool v2 = false; int c = -1, cid = 0, cepoch = 0, d = -1, did = 0; bool batch = false; int task = 0; int left = 0; } V[16];
 	int idc = 0, idd = 0;
 	int phase = 0, task = 0;
 	int nkeys = 0, ninputs = 0;
@@ -221,6 +221,7 @@ static void history(Builder &b, const HistoryOpts &ho) {
 		uint64_t r = rng.below(100);
 		auto ready = b.caches_ready();
 		std::vector<int> vms; for (int i = 0; i < 16; ++i) if (b.V[i].alive) vms.push_back(i);
+		{ bool open_batch = false; for (int w : vms) open_batch |= b.V[w].batch; if (open_batch && rng.chance(1, 2)) r = 50; } // keep open batches moving
 		if (r < 12) { // create a light VM
 			int v = b.free_v(); if (v < 0 || ready.empty() || b.live_vms() >= 4) continue;
 			int c = rng.pick(ready);
@@ -268,21 +269,22 @@ static void history(Builder &b, const HistoryOpts &ho) {
 			if (b.V[v].batch) continue;
 			if (!b.make_hashable(v)) continue;
 			b.hash(v, b.rnd_input());
-		} else if (r < 57) { // batch, with unrelated ops on other objects in between
+		} else if (r < 57) { // one step of a pipelined batch: open it, advance it or close it. Batches of different VMs
+			// (and every other op on other objects) interleave freely; on the VM itself nothing else happens meanwhile
 			if (vms.empty()) continue;
 			int v = rng.pick(vms);
-			if (b.V[v].batch || !b.make_hashable(v)) continue;
-			int n = (int)rng.range(1, 5);
-			b.first(v, b.rnd_input());
-			for (int i = 0; i < n; ++i) {
-				if (rng.chance(1, 4)) { // op on another VM in between
-					std::vector<int> others; for (int w : vms) if (w != v && b.V[w].alive && !b.V[w].batch && b.hashable(w)) others.push_back(w);
-					if (!others.empty()) b.hash(rng.pick(others), b.rnd_input());
-				}
-				if (rng.chance(1, 12)) { b.destroy_vm(v); break; } // destroy in the middle of a batch
-				if (i + 1 < n) b.next(v, b.rnd_input());
+			// prefer a VM that is already inside a batch half of the time, so that batches get finished and overlap
+			if (rng.chance(1, 2)) for (int w : vms) if (b.V[w].batch) { v = w; if (rng.chance(1, 2)) break; }
+			if (!b.V[v].batch) {
+				if (!b.make_hashable(v)) continue;
+				b.first(v, b.rnd_input());
+				b.V[v].left = (int)rng.range(0, 4);
+			} else {
+				if (!b.hashable(v)) { b.destroy_vm(v); continue; }  // its cache went away under it: destroying is all that is legal
+				if (rng.chance(1, 14)) { b.destroy_vm(v); continue; } // destroy in the middle of a batch
+				if (b.V[v].left > 0) { b.next(v, b.rnd_input()); b.V[v].left--; }
+				else b.last(v);
 			}
-			if (b.V[v].alive) b.last(v);
 		} else if (r < 66) { // re-key a cache, then (maybe) check its memory
 			if (ready.empty()) continue;
 			int c = rng.pick(ready);
@@ -298,6 +300,7 @@ static void history(Builder &b, const HistoryOpts &ho) {
 		} else if (r < 80) { // recycle: release a cache while VMs live, allocate a new one (heap policy decides addresses)
 			if (ready.empty()) continue;
 			int c = rng.pick(ready);
+			{ bool in_batch = false; for (int w : vms) if (b.V[w].batch && !(b.V[w].flags & F_FULL) && b.V[w].c == c) in_batch = true; if (in_batch && rng.chance(7, 8)) continue; }
 			int oldkey = b.C[c].key; uint32_t oldflags = b.C[c].flags;
 			b.release_cache(c);
 			if (rng.chance(1, 3) && !ready.empty()) { // unrelated allocation in between
@@ -338,6 +341,11 @@ static void history(Builder &b, const HistoryOpts &ho) {
 			if (b.plan.keys[o.key].len != 32) { b.plan.ops.pop_back(); }
 		}
 	}
+	// finish the batches that are still open (most of the time), in a random order
+	for (int round = 0; round < 6; ++round)
+		for (int v = 0; v < 16; ++v) if (b.V[v].alive && b.V[v].batch && b.hashable(v) && rng.chance(3, 4)) {
+			if (b.V[v].left > 0 && rng.chance(1, 2)) { b.next(v, b.rnd_input()); b.V[v].left--; } else b.last(v);
+		}
 }
 
 // ------------------------------------------------------------------ C15: enumeration + seeded histories
